@@ -21,6 +21,7 @@ type signer struct {
 	keyArgs string                                 // five fields
 	altArgs []string                               // same key under another Go type (aug) / another key of the same kind
 	sign    func(algo int, msg []byte) []byte      // genuine signature under `algo` (nil if not applicable)
+	rsa     *c23.Key                               // RSA: the private key, for forgeries that need it
 	algos   []int                                  // algorithms this key can sign
 	q       *big.Int                               // group order for DER signatures (nil for RSA/Ed25519)
 }
@@ -62,17 +63,27 @@ func gen(g *zv.Gen) {
 	for i, sp := range []struct {
 		bits, np int
 		e        string
-	}{{1280, 2, "65537"}, {1536, 3, "large"}, {2048, 2, "3"}} {
-		if i == 2 && g.Quick {
+	}{{1280, 2, "65537"}, {1536, 3, "large"}, {2048, 2, "3"},
+		// modulus bit lengths = 1..7 mod 8 (1 mod 8: the PSS representative has a whole leading octet that must be zero)
+		{1025, 2, "65537"}, {1281, 2, "3"}, {1031, 2, "65537"}, {2049, 2, "65537"}, {1545, 3, "large"}, {1028, 2, "3"}} {
+		if (i == 2 || i >= 6) && g.Quick {
 			continue
 		}
 		k := c23.GenKey(r.Fork(), sp.bits, sp.np, sp.e, false)
 		k2 := c23.GenKey(r.Fork(), sp.bits, 2, "65537", false)
 		priv := c23.ParsePriv(strings.Fields(k.PrivArgs("-")))
 		rr := r.Fork()
+		var algos []int
+		for _, a := range []int{2, 3, 4, 5, 6, 13, 14, 15} {
+			// RSASSA-PSS with sLen = hLen needs emLen >= 2*hLen+2 (SHA-512: a modulus of at least 1033 bits)
+			if sa := stdAlgo[a]; !sa.pss || (sp.bits-1+7)/8 >= 2*sa.h.Size()+2 {
+				algos = append(algos, a)
+			}
+		}
 		signers = append(signers, signer{
+			rsa:     k,
 			keyArgs: "rsa " + k.PubArgs() + " - -", altArgs: []string{"rsa " + k2.PubArgs() + " - -"},
-			algos: []int{2, 3, 4, 5, 6, 13, 14, 15},
+			algos: algos,
 			sign: func(algo int, msg []byte) []byte {
 				sa := stdAlgo[algo]
 				var sig []byte
@@ -178,6 +189,22 @@ func gen(g *zv.Gen) {
 				emit(g, s.keyArgs, algo, msg, append(append([]byte{}, sig...), byte(r.Intn(256))))
 				emit(g, s.keyArgs, algo, msg, append([]byte{0}, sig...))
 				emit(g, s.keyArgs, algo, msg, nil)
+				if s.rsa != nil {
+					// signatures only the key holder can make and every verifier must reject (see c23.Forgeries): roots of
+					// EM + 2^(bits-1) (PSS: the must-be-zero top bit, a whole leading octet when bits = 1 mod 8), of EM with
+					// one structural defect, s + j*n, n - s, zero-extended. For PSS the salt decides whether the first one
+					// exists (EM + 2^(bits-1) < n): redraw a few times.
+					pss := stdAlgo[algo].pss
+					fgs := c23.Forgeries(r, s.rsa, sig, pss)
+					for try := 0; pss && try < 6 && (len(fgs) == 0 || fgs[0].Kind != "rep+2^(bits-1)"); try++ {
+						if f2 := c23.Forgeries(r, s.rsa, s.sign(algo, msg), true); len(f2) > 0 && f2[0].Kind == "rep+2^(bits-1)" {
+							fgs = append(f2[:1], fgs...)
+						}
+					}
+					for _, fg := range fgs {
+						emit(g, s.keyArgs, algo, msg, fg.Sig)
+					}
+				}
 				if s.q == nil {
 					continue
 				}
